@@ -6,6 +6,7 @@ import Torf.Lemmas.Codec
 import Torf.Lemmas.RoundTripBack
 import Torf.Lemmas.RoundTripPy
 import Torf.Lemmas.BencodeSmall
+import Torf.Lemmas.BencodeSmallMono
 import Torf.Model.ReadStream
 namespace Torf.C05
 open Torf Torf.Bencode Torf.Codec Torf.ReadStream
@@ -17,13 +18,11 @@ theorem C05_parse_ser (lim : Nat) (v : BVal) (hc : canon v = true) (hs : small l
   parse_ser lim v hc hs
 
 /-- Canonical encodings identify values: two canonical values with the same bytes are equal,
-    so unknown fields, nesting, big integers and arbitrary byte strings are all preserved. -/
-theorem C05_ser_inj (lim : Nat) (v w : BVal) (hv : canon v = true) (hw : canon w = true)
-    (sv : small lim v = true) (sw : small lim w = true) (h : ser v = ser w) : v = w := by
-  have h1 := parse_ser lim v hv sv
-  have h2 := parse_ser lim w hw sw
-  rw [h] at h1
-  exact Option.some.inj (h1.symm.trans h2)
+    so unknown fields, nesting, big integers and arbitrary byte strings are all preserved.
+    (No digit limit: `small` is monotone in the limit and every value is small for some limit.) -/
+theorem C05_ser_inj (v w : BVal) (hv : canon v = true) (hw : canon w = true)
+    (h : ser v = ser w) : v = w :=
+  ser_inj_canon v w hv hw h
 
 /-- The conforming parser accepts `bs` with value `v` exactly when `v` is canonical and `bs` is
     its serialisation. -/
